@@ -235,10 +235,10 @@ func checkC05(p *Program, r *Report) {
 	}
 	canonicalInput(p, r, "C05.canon", []*ssa.Function{fn})
 	if n := rejectionVocabulary(p, r, "C05.accepts", fn, []string{`len\(call .*base58\.Decode\)`, `call bytes\.Equal`, `call .*big\.Int\)\.Cmp`, `call .*big\.Int\)\.Sign`,
-		`call .*bchec\.ParsePubKey#1`, `call .*base58\.Decode\[45\]`}, "the decoded length, the checksum, the key-type byte and the validity of the key material"); n == 0 {
+		`call .*bchec\.ParsePubKey#1`, `call .*base58\.Decode\[45\]`}, "the decoded length, the checksum, the key-type byte and the validity of the key material", approvedChecksumConds(p, fn)); n == 0 {
 		r.Unresolved("C05.accepts", "rejection tests of NewKeyFromString")
 	}
-	r.Floor("C05.accepts", 4)
+	r.Floor("C05.accepts", 3)
 	base58ByteLookup(p, r, "C05.canon")
 	r.Floor("C05.len", 1)
 	r.Floor("C05.canon", 1)
